@@ -74,8 +74,10 @@ func (e *ExecutorEngine) StartOperation(ctx context.Context, id string, payload 
 
 // StopSubscription will stop an active subscription.
 func (e *ExecutorEngine) StopSubscription(id string, eventHandler EventHandler) error {
-	e.subCancellations.Cancel(id)
-	eventHandler.Emit(EventTypeOnSubscriptionCompleted, id, nil, nil)
+	// only an active id is completed: the server has already sent the terminal message of any other id
+	if e.subCancellations.Cancel(id) {
+		eventHandler.Emit(EventTypeOnSubscriptionCompleted, id, nil, nil)
+	}
 	return nil
 }
 
